@@ -302,7 +302,38 @@ def index_vector_cxx(idx, mode):
 def gen_extra(rng):
     """statement kinds outside the Coq model (specification only): integer-vector-indexed targets and sources, find, minloc, maxloc,
     mean / product / maxval / minval along a dimension"""
-    kind = rng.choice(["scatter", "scatter", "gather", "gather", "find", "minloc", "maxloc", "reddim"])
+    kind = rng.choice(["scatter", "scatter", "gather", "gather", "find", "minloc", "maxloc", "reddim", "mixed", "mixed"])
+    if kind == "mixed":
+        # an index vector combined with scalar indices and ranges (possibly `end`-relative) on a rank-2 / rank-3 parent
+        name = rng.choice(["P2", "Q2", "P1", "P3"])
+        d = PARENTS[name]
+        r = len(d)
+        vpos = rng.randrange(r)
+        args, sel = [], []
+        for k in range(r):
+            if k == vpos:
+                n = rng.randint(1, min(d[k], 4))
+                idx = rng.sample(range(d[k]), n)
+                args.append("I"); sel.append(idx)
+            else:
+                c = rng.random()
+                if c < 0.35:
+                    i = rng.randrange(d[k]); args.append(str(i)); sel.append(i)
+                elif c < 0.5:
+                    args.append("__"); sel.append(list(range(d[k])))
+                elif c < 0.7:
+                    args.append("stride(end,0,-1)"); sel.append(list(range(d[k] - 1, -1, -1)))
+                elif c < 0.85 and d[k] >= 2:
+                    args.append("range(end-1,end)"); sel.append([d[k] - 2, d[k] - 1])
+                else:
+                    a = rng.randrange(d[k]); b = rng.randrange(a, d[k]); args.append("range(%d,%d)" % (a, b)); sel.append(list(range(a, b + 1)))
+        lists = [x for x in sel if isinstance(x, list)]
+        if not 1 <= len(lists) <= 2:
+            return None
+        cells = [tuple(c) for c in itertools.product(*[x if isinstance(x, list) else [x] for x in sel])]
+        dims = [len(x) for x in lists]
+        return Stmt("mixed", name=name, text="%s(%s)" % (name, ",".join(args)), idx=sel[vpos], mode=rng.randrange(3), cells=cells, dims=dims,
+                    write=rng.random() < 0.5, c=rng.randint(5, 9))
     if kind in ("scatter", "gather"):
         L = rng.randint(2, 7)
         n = rng.randint(1, L)
@@ -427,6 +458,10 @@ def stmt_cxx(s, ty="double"):
         return "{ %s %s(I) %s= %s; }" % (index_vector_cxx(s.idx, s.mode), s.target.text, s.op, cxx(s.e, ty))
     if s.kind == "gather":
         return "{ %s %s = %s(I) %s %s; }" % (index_vector_cxx(s.idx, s.mode), s.target.text, s.src.text, s.op, cxx(s.e, ty))
+    if s.kind == "mixed":
+        if s.write:
+            return "{ %s %s = %s(%d); }" % (index_vector_cxx(s.idx, s.mode), s.text, ty, s.c)
+        return "{ %s Array<%d,real,false> r__; r__ = %s; out_arr(os, r__); }" % (index_vector_cxx(s.idx, s.mode), len(s.dims), s.text)
     if s.kind == "find":
         return "RESULTI(find(%s > %s(%d)));" % (cxx(s.e, ty), ty, s.c)
     if s.kind in ("minloc", "maxloc"):
@@ -437,7 +472,7 @@ def stmt_cxx(s, ty="double"):
 
 
 def stmt_sx(s, layout):
-    if s.kind in ("scatter", "gather", "find", "minloc", "maxloc", "reddim"):
+    if s.kind in ("scatter", "gather", "find", "minloc", "maxloc", "reddim", "mixed"):
         return None            # outside the Coq model: specification only
     if s.kind == "fill":
         return "(fill %s %d)" % (sx_view(s.target, layout), s.c)
@@ -490,6 +525,12 @@ def stmt_spec(s):
         vals = [f(mem[s.src.name][s.src.cells[i]], spec_eval(s.e, mem, (k,))) for k, i in enumerate(s.idx)]
         for k in range(len(s.idx)):
             mem[t.name][t.cells[k]] = vals[k]
+    elif s.kind == "mixed":
+        if s.write:
+            for c in s.cells:
+                mem[s.name][c] = s.c
+        else:
+            result = [mem[s.name][c] for c in s.cells]
     elif s.kind == "find":
         result = [k for k in range(s.dims[0]) if spec_eval(s.e, mem, (k,)) > s.c]
     elif s.kind in ("minloc", "maxloc"):
